@@ -196,6 +196,11 @@ func (s glueSuite) Gen(r *Rng, i int, tier string) any {
 			c.Cold = append(c.Cold, true)
 		}
 	}
+	// a HISTORY over one NewMultiArch value (glue_history.go): rounds of resolution with repository updates in between
+	hist := map[string]int{"glue-avail": 36, "glue-pure": 10}[focus]
+	if c.Mode != "single" && len(c.Archs) >= 2 && r.Chance(hist) {
+		glueGenHistory(r, &c)
+	}
 	return c
 }
 
@@ -396,6 +401,9 @@ func (s glueSuite) Run(raw json.RawMessage) []Step {
 		return []Step{{Line: "x.robust\tglue", Go: "setup-error: " + err.Error(), Mode: "oracle-go", GoSpec: "pass", NoImpl: true, Trivial: true, Desc: "glue setup failed", Tags: []string{"glue:setup-error"}}}
 	}
 	defer env.close()
+	if c.Mode == "hist" {
+		return s.runHistory(c, env)
+	}
 	if len(c.Cold) == 0 {
 		c.Cold = []bool{true}
 	}
@@ -415,66 +423,9 @@ func (s glueSuite) Run(raw json.RawMessage) []Step {
 	for _, w := range env.written {
 		lines = append(lines, w.norm)
 	}
-	written := func(k int) rArch {
-		a := c.Archs[k]
-		out := rArch{Arch: a.Arch}
-		for _, w := range env.written {
-			out.Indexes = append(out.Indexes, a.Indexes[w.repo])
-		}
-		return out
-	}
-	var family []rArch
-	for k := range c.Archs {
-		family = append(family, written(k))
-	}
+	family := glueFamily(c, env)
 	famEnc := encodeArchs(family)
-	tagsBase := []string{"mode:" + c.Mode, fmt.Sprintf("archs:%d", len(c.Archs)), fmt.Sprintf("repos:%d", len(c.Repos)), fmt.Sprintf("invocations:%d", len(c.Cold))}
-	arm := 0
-	for _, a := range c.Archs {
-		if a.Arch == "armhf" || a.Arch == "armv7" {
-			arm++
-		}
-	}
-	if arm == 2 {
-		tagsBase = append(tagsBase, "archs:armhf+armv7")
-	}
-	for _, rp := range c.Repos {
-		switch {
-		case !rp.HTTP:
-			tagsBase = append(tagsBase, "repo:file")
-		case rp.NoTag:
-			tagsBase = append(tagsBase, "repo:http-no-etag")
-		default:
-			tagsBase = append(tagsBase, "repo:http-etag")
-		}
-		if rp.Creds != "" {
-			tagsBase = append(tagsBase, "repo:creds-"+rp.Creds)
-		}
-		if rp.Place != "runtime" || rp.Twice != "" {
-			tagsBase = append(tagsBase, "repo:place-"+rp.Place)
-		}
-	}
-	if c.Cache != "" {
-		tagsBase = append(tagsBase, "cache:"+c.Cache)
-	}
-	if c.Big > 0 {
-		tagsBase = append(tagsBase, "cold-race:padded-index")
-	}
-	if len(c.Extra) > 0 {
-		tagsBase = append(tagsBase, "world:package-append")
-	}
-	{
-		seen := map[string]int{}
-		for _, e := range append(append([]string(nil), c.Packages...), c.Extra...) {
-			seen[glueConstraintName(e)]++
-		}
-		for _, k := range seen {
-			if k > 1 {
-				tagsBase = append(tagsBase, "world:name-written-twice")
-				break
-			}
-		}
-	}
+	tagsBase := append(glueTags(c), fmt.Sprintf("invocations:%d", len(c.Cold)))
 	var steps []Step
 	for k := range c.Archs {
 		// whether the lock can be unified depends on the map order of the architectures (C09's finding F09g): an
@@ -547,4 +498,67 @@ func glueDescribe(c glueCase, env *glueEnv, k int) string {
 		s = s[:2200] + "…"
 	}
 	return s
+}
+
+// glueFamily: per architecture, the indexes in the order of the repository lines as written
+func glueFamily(c glueCase, env *glueEnv) []rArch {
+	var family []rArch
+	for _, a := range c.Archs {
+		out := rArch{Arch: a.Arch}
+		for _, w := range env.written {
+			out.Indexes = append(out.Indexes, a.Indexes[w.repo])
+		}
+		family = append(family, out)
+	}
+	return family
+}
+
+// glueTags: the shape of a case for the input distribution
+func glueTags(c glueCase) []string {
+	tagsBase := []string{"mode:" + c.Mode, fmt.Sprintf("archs:%d", len(c.Archs)), fmt.Sprintf("repos:%d", len(c.Repos))}
+	arm := 0
+	for _, a := range c.Archs {
+		if a.Arch == "armhf" || a.Arch == "armv7" {
+			arm++
+		}
+	}
+	if arm == 2 {
+		tagsBase = append(tagsBase, "archs:armhf+armv7")
+	}
+	for _, rp := range c.Repos {
+		switch {
+		case !rp.HTTP:
+			tagsBase = append(tagsBase, "repo:file")
+		case rp.NoTag:
+			tagsBase = append(tagsBase, "repo:http-no-etag")
+		default:
+			tagsBase = append(tagsBase, "repo:http-etag")
+		}
+		if rp.Creds != "" {
+			tagsBase = append(tagsBase, "repo:creds-"+rp.Creds)
+		}
+		if rp.Place != "runtime" || rp.Twice != "" {
+			tagsBase = append(tagsBase, "repo:place-"+rp.Place)
+		}
+	}
+	if c.Cache != "" {
+		tagsBase = append(tagsBase, "cache:"+c.Cache)
+	}
+	if c.Big > 0 {
+		tagsBase = append(tagsBase, "cold-race:padded-index")
+	}
+	if len(c.Extra) > 0 {
+		tagsBase = append(tagsBase, "world:package-append")
+	}
+	seen := map[string]int{}
+	for _, e := range append(append([]string(nil), c.Packages...), c.Extra...) {
+		seen[glueConstraintName(e)]++
+	}
+	for _, k := range seen {
+		if k > 1 {
+			tagsBase = append(tagsBase, "world:name-written-twice")
+			break
+		}
+	}
+	return tagsBase
 }
